@@ -43,7 +43,7 @@ FreshOutputIsSafe ==
   LET I == Shapes[sc.k] T == TreeOf(sc.S) IN
   (P.unspec = {} /\ I.output = outS /\ ~I.b) =>
      /\ P.hazard \subseteq {"two tasks share a destination", "destination inside another destination"}
-     /\ P.known \subseteq {"syncfile", "slashdot"} /\ P.inplace = {}
+     /\ P.inplace = {} /\ P.refuse = {}
 \* sync: every visible non-directory below a synchronised directory gets exactly one task
 SyncCoversAll ==
   LET I == Shapes[sc.k] T == TreeOf(sc.S) IN
@@ -51,9 +51,8 @@ SyncCoversAll ==
      \A e \in {T[i] : i \in DOMAIN T} :
         (e.k \in {"f", "h"} /\ \E n \in DOMAIN I.inputs : IsPrefix(Comps(I.inputs[n]), Comps(e.p)))
           => \E i \in DOMAIN P.tasks : Stat(T, Comps(P.tasks[i].srcs[1]), TRUE).real = Comps(e.p)
-\* a known construct always involves writing a file onto itself
-KnownOnlyInPlace == (P.known \ {"syncfile", "slashdot"}) # {} => P.inplace # {}
-
+\* a task is refused only when it would write a file onto itself
+RefuseOnlyInPlace == P.refuse \subseteq P.inplace
 \* identifiers of the scenarios whose outcome the documentation determines (handed to the real binary)
 Emit == Runnable => PrintT(<<"SC", sc.k, SetToSortSeq(sc.S, <), IF P.known = {} THEN "ok" ELSE "known", Len(P.tasks)>>)
 =============================================================================
